@@ -344,6 +344,29 @@ def trig_worker(part, spec, max_len):
             seen.add(sd)
             part.state((repr(sorted(spec.items(), key=str)), xtal.public_digest(c)))
             part.outcome((spec["asym"], spec["start"], target, len(Y[0])))
+    # the user moves the atoms (a new coordinate array is assigned, all sites shifted along the three-fold axis so that special
+    # positions stay special) between two switches: every later switch describes the crystal AS EDITED
+    for word in (("E", "H"), ("E", "R"), ("H", "E", "R"), ("R", "E", "H"), ("H", "E", "H"), ("R", "E", "R"), ("R", "E", "H", "R"), ("H", "R", "E", "H"), ("R", "H", "E", "R", "H")):
+        part.ev()
+        case = {"kind": "trig", "spec": spec, "word": list(word)}
+        c = trig_initial(spec)
+        X_edit = None
+        try:
+            for w in word:
+                part.tr()
+                if w == "E":
+                    shift = np.array([0.0, 0.0, 0.0137]) if c.space_group.choice == "H" else np.array([0.0137, 0.0137, 0.0137])
+                    c.asymmetric_unit.positions = np.asarray(c.asymmetric_unit.positions) + shift
+                    X_edit = arrangement(xtal.fresh_from_state(xtal.public_state(c)))
+                else:
+                    c.choose_trigonal_lattice(w)
+        except Exception as e:
+            part.fail("trig-edit-raise:%d" % (spec.get("number") or 0), "switch / edit sequence %s raised %r" % (word, e), case)
+            continue
+        Y = arrangement(xtal.fresh_from_state(xtal.public_state(c)))
+        same_arrangement(part, X_edit, Y, "trig-arrangement-after-edit:%s" % spec["asym"],
+                         "group %s, %s, sequence %s from %s (E = all sites shifted along the axis)" % (spec.get("number"), spec.get("ac"), "".join(word), spec["start"]), case)
+        part.outcome((spec["asym"], spec["start"], "edit", word[-1]))
     part.nontriv(repr(sorted(spec.items(), key=str)))
     part.sample({"spec": spec, "words": 2 ** (max_len + 1) - 2})
 
